@@ -76,10 +76,24 @@ inductive Cap where
   | unset | on | off
 deriving DecidableEq, Repr
 
-/-- What a feature-set mutation does: `noop` = `change()` returned false (nothing removed). -/
+/-- What a feature-set mutation does: `noop` = `change()` returned false (nothing removed);
+`removeN n mixed` = one `Remove*(names…)` call that named `n ≥ 1` registered features (`mixed`: together with names
+that were not registered, or no longer when the loop of `featureSet.remove` reached them — the model does not read it). -/
 inductive Eff where
   | add | replace | remove | noop
+  | removeN (n : Nat) (mixed : Bool)
 deriving DecidableEq, Repr
+
+/-- how a name of a `Remove*(names…)` call relates to the feature set when the loop of `featureSet.remove` reaches it:
+`absent` = never registered, or removed earlier in the same call (a repeated name) -/
+inductive NameAt where
+  | present | absent
+deriving DecidableEq, Repr
+
+/-- `featureSet.remove(uids…)` as the server sees it: the call is a change iff SOME named feature was present
+(`changed` is set in the loop, never reset), and it removes every present one -/
+def removeEff (names : List NameAt) : Eff :=
+  if names.count .present = 0 then .noop else .removeN (names.count .present) (names.contains .absent)
 
 def delay : Nat := notificationDelayMs
 
@@ -211,7 +225,7 @@ def put (l : List (Nat × Nat)) (sid id : Nat) : List (Nat × Nat) :=
 def bumpVer (s : Server) (f : FSet) (e : Eff) : Server :=
   { s with
     ver := fun f' => if f' = f then s.ver f + 1 else s.ver f',
-    cnt := fun f' => if f' = f then (match e with | .add => s.cnt f + 1 | .remove => s.cnt f - 1 | _ => s.cnt f)
+    cnt := fun f' => if f' = f then (match e with | .add => s.cnt f + 1 | .remove => s.cnt f - 1 | .removeN n _ => s.cnt f - n | _ => s.cnt f)
                      else s.cnt f' }
 
 /-- The body of `if change() && s.shouldSendListChangedNotification(n)`: stop-and-forget when no
